@@ -305,7 +305,7 @@ func limits(r *Rng, sizes []uint64, hdr uint64, cap int) []uint64 {
 func c23Gen(r *Rng, tier string, emit func(string)) {
 	nCases := 160
 	if tier == "thorough" {
-		nCases = 5000
+		nCases = 3000
 	}
 	// truncateSHA256Slice directly
 	for _, n := range []int{0, 1, 2, 3, 255, 256, 257} {
